@@ -185,6 +185,33 @@ def covered(static: T.Optional[bool], dl: str) -> T.List[T.Tuple[str, bool]]:
     return [('n', False), (stag(static), True)]
 
 
+CACHE_RELEVANT = {'pkgconfig': 'pkg', 'cmake': 'cmake', 'other': None}   # which search path produced a result of this type
+
+
+def norm_fw(fw: dict) -> dict:
+    """defaults of the optional parts of a full world: search paths of the current configuration, the type of what the
+    system offers per name, and `history`: what earlier configurations left in the persistent cache
+    ([{'name','dep','paths': {'pkg','cmake'}}]; `cache: {name: dep}` = stored under the present paths)"""
+    fw.setdefault('paths', {'pkg': [], 'cmake': []})
+    fw.setdefault('system_type', {})
+    if 'history' not in fw:
+        fw['history'] = [{'name': n, 'dep': d, 'paths': copy.deepcopy(fw['paths'])} for n, d in fw.get('cache', {}).items()]
+    return fw
+
+
+def type_of(fw: dict, name: str) -> str:
+    return fw['system_type'].get(name, 'pkgconfig')
+
+
+def rel_value(fw: dict, name: str, paths: dict) -> T.Optional[T.List[str]]:
+    k = CACHE_RELEVANT[type_of(fw, name)]
+    return None if k is None else list(paths[k])
+
+
+def ckey(name: str, flav: str, at: T.Optional[T.List[str]]) -> str:
+    return f'{name}|{flav}|{json.dumps(at)}'
+
+
 def tkey(native: bool, name: str, flav: str) -> str:
     return f"{'B' if native else 'H'}|{name}|{flav}"
 
@@ -221,20 +248,25 @@ class Session:
         _Impl.load()
         I = _Impl
         self.I = I
-        self.world = copy.deepcopy(fw)
+        self.world = norm_fw(copy.deepcopy(fw))
+        fw = self.world
         self.effects: T.List[str] = []
         self.deps: T.Dict[str, T.Any] = {}
         HOST = I.MachineChoice.HOST
         self.HOST = HOST
         self.sub_dl: T.Dict[str, str] = {'': fw['main_dl']}
+        self.paths = copy.deepcopy(fw['paths'])
+        self.put_log: T.Dict[str, T.Any] = {}
         self.setup_errors: T.List[str] = []
         sess = self
         from mesonbuild.interpreter.mesonmain import MesonMain
 
-        def mk(dep):
+        def mk(dep, type_name=None):
             ident, found, version = dep
             if ident not in self.deps:
                 self.deps[ident] = I.StubDep(ident, found, version)
+                if type_name:
+                    self.deps[ident].type_name = {'other': 'system'}.get(type_name, type_name)
             return self.deps[ident]
         self.mk = mk
 
@@ -246,18 +278,32 @@ class Session:
                     return list(sess.world['fff'])
                 if key.name == 'default_library':
                     return sess.sub_dl[key.subproject or '']
+                if key.name == 'pkg_config_path':
+                    return list(sess.paths['pkg']) if key.machine is HOST else []
+                if key.name == 'cmake_prefix_path':
+                    return list(sess.paths['cmake']) if key.machine is HOST else []
                 raise KeyError(key)
 
+        from mesonbuild.coredata import DependencyCache
+
         class Cache:
-            def __init__(self):
-                self.d: T.Dict[T.Any, T.Any] = {}
+            """the real coredata.DependencyCache; calls are logged (effects, and what was stored under which paths)"""
+
+            def __init__(self, machine):
+                self.real = DependencyCache(OptStore(), machine)
 
             def get(self, ident):
                 sess.effects.append('cacheget:' + dict(ident)['name'])
-                return self.d.get(ident)
+                return self.real.get(ident)
 
             def put(self, ident, dep):
-                self.d[ident] = dep
+                n, fl = ident_key(ident)
+                sess.put_log[ckey(n, fl, rel_value(sess.world, n, sess.paths))] = [dep.ident, dep.found(), dep.get_version()]
+                self.real.put(ident, dep)
+
+            def clear(self):
+                sess.put_log.clear()
+                self.real.clear()
 
         class CoreData:
             pass
@@ -298,10 +344,10 @@ class Session:
             def apply_machine_map_to_kwargs(self, kwargs):
                 pass
 
-        self.cache = Cache()
+        self.cache = Cache(HOST)
         cd = CoreData()
         cd.optstore = OptStore()
-        cd.deps = I.PerMachine(Cache(), self.cache)
+        cd.deps = I.PerMachine(Cache(I.MachineChoice.BUILD), self.cache)
         b = Build()
         b.dependency_overrides = I.PerMachine({}, {})
         b.environment = Env()
@@ -318,10 +364,23 @@ class Session:
         self.interp = interp_for('')
         self.build = b
         self.MesonMain = MesonMain
+        # what earlier configurations left in the persistent cache: stored through the real put() under their paths
+        for rec in fw['history']:
+            self.paths = copy.deepcopy(rec['paths'])
+            self.cache.put(I.dependencies.get_dep_identifier(rec['name'], {'native': HOST}),
+                           mk(rec['dep'], type_of(fw, rec['name'])))
+        self.paths = copy.deepcopy(fw['paths'])
+        self.start_configuration()
+
+    def start_configuration(self) -> None:
+        """a configuration starts: Build (overrides) and subprojects are new, coredata (the cache) persists"""
+        I = self.I
+        for m in (I.MachineChoice.BUILD, I.MachineChoice.HOST):
+            self.build.dependency_overrides[m].clear()
+            self.subprojects[m].clear()
+        self.sub_dl = {'': self.world['main_dl']}
         # the state before the lookups, produced by the real registration method
         self.run_ops('', self.world['ops'], atomic=False)
-        for name, dep in self.world['cache'].items():
-            self.cache.d[I.dependencies.get_dep_identifier(name, {'native': HOST})] = mk(dep)
         for sp, st in self.world['subprojects'].items():
             if st['state'] != 'no':
                 self.sub_dl[sp] = st['dl']
@@ -388,10 +447,22 @@ class Session:
         v = self.world['system'].get(name)
         wanted = kwargs.get('version', [])
         if v is not None and vsat(v, wanted):
-            return self.mk(['sys:' + name + '@' + v, True, v])
+            return self.mk(['sys:' + name + '@' + v, True, v], type_of(self.world, name))
         if kwargs.get('required', True):
             raise I.DependencyException(f'Dependency "{name}" not found')
         return I.NotFoundDependency(name, env)
+
+    def reconfigure(self, op: dict) -> None:
+        """`meson setup --reconfigure -Dpkg_config_path=… [--clearcache]`: new search paths, what the system offers
+        there, a fresh Build; the cache persists unless cleared"""
+        if 'paths' in op:
+            self.paths = copy.deepcopy(op['paths'])
+            self.world['paths'] = copy.deepcopy(op['paths'])
+        if 'system' in op:
+            self.world['system'] = dict(op['system'])
+        if op.get('clearcache'):
+            self.cache.clear()
+        self.start_configuration()
 
     def lookup(self, req: dict) -> T.Tuple[str, T.List[str]]:
         I = self.I
@@ -425,12 +496,9 @@ class Session:
                 n, fl = ident_key(ident)
                 d = o.dep
                 table[tkey(tagm, n, fl)] = [[getattr(d, 'ident', '?'), d.found(), d.get_version()], bool(o.explicit)]
-        ctable = {}
-        for ident, d in self.cache.d.items():
-            n, fl = ident_key(ident)
-            ctable[f'{n}|{fl}'] = [d.ident, d.found(), d.get_version()]
+        ctable = dict(self.put_log)
         subs = {sp: ('found' if h.found() else 'disabled') for sp, h in self.subprojects[self.HOST].items()}
-        return {'table': table, 'ctable': ctable, 'subs': subs}
+        return {'table': table, 'ctable': ctable, 'subs': subs, 'paths': copy.deepcopy(self.paths)}
 
 
 def initial_state(fw: dict) -> dict:
@@ -445,8 +513,7 @@ def initial_state(fw: dict) -> dict:
             if st['state'] == 'found':
                 t = register_ops(table, st['ops'], st['dl'])
                 table = t if t is not None else table
-    ctable = {f'{n}|n': d for n, d in fw['cache'].items()}
-    return {'table': table, 'ctable': ctable, 'subs': subs}
+    return {'table': table, 'subs': subs}
 
 
 def make_slice(fw: dict, state: dict, req: dict) -> dict:
@@ -455,15 +522,17 @@ def make_slice(fw: dict, state: dict, req: dict) -> dict:
     the world format of the Lean model and of `Policy`)"""
     fo = flavour(req.get('static'), req.get('extra') or {}, False)
     fc = flavour(req.get('static'), req.get('extra') or {}, True)
+    fw = norm_fw(fw)
     w = {'wrap_mode': fw['wrap_mode'], 'fff': list(fw['fff']), 'system': dict(fw['system']),
          'provides': {k: list(v) for k, v in fw['provides'].items()}, 'overrides': {}, 'cache': {}, 'subprojects': {}}
     for k, v in state['table'].items():
         m, n, fl = k.split('|', 2)
         if m == 'H' and fl == fo:
             w['overrides'][n] = v
+    # a cached result is reused only while the search path that produced it is unchanged
     for k, v in state['ctable'].items():
-        n, fl = k.split('|', 1)
-        if fl == fc:
+        n, fl, at = k.split('|', 2)
+        if fl == fc and json.loads(at) == rel_value(fw, n, state['paths']):
             w['cache'][n] = v
     for sp, st in fw['subprojects'].items():
         cur = state['subs'].get(sp, 'no')
@@ -495,9 +564,24 @@ class FullPolicy:
     """the documented policy over the keyed tables: registration rule + the decision table at the lookup's flavour"""
 
     def __init__(self, fw: dict):
-        self.fw = fw
+        self.fw = norm_fw(copy.deepcopy(fw))
+        fw = self.fw
         self.state = initial_state(fw)
+        self.state['paths'] = copy.deepcopy(fw['paths'])
+        self.state['ctable'] = {}
+        for rec in fw['history']:
+            self.state['ctable'][ckey(rec['name'], 'n', rel_value(fw, rec['name'], rec['paths']))] = rec['dep']
         self.last: T.Optional['Policy'] = None
+
+    def reconfigure(self, op: dict) -> None:
+        if 'paths' in op:
+            self.fw['paths'] = copy.deepcopy(op['paths'])
+        if 'system' in op:
+            self.fw['system'] = dict(op['system'])
+        ct = {} if op.get('clearcache') else self.state['ctable']
+        self.state = initial_state(self.fw)
+        self.state['paths'] = copy.deepcopy(self.fw['paths'])
+        self.state['ctable'] = ct
 
     def decide(self, req: dict) -> str:
         fo = flavour(req.get('static'), req.get('extra') or {}, False)
@@ -522,7 +606,7 @@ class FullPolicy:
         for n, v in p.w['overrides'].items():
             st['table'].setdefault(tkey(False, n, fo), v)
         for n, v in p.w['cache'].items():
-            st['ctable'][f'{n}|{fc}'] = v
+            st['ctable'][ckey(n, fc, rel_value(self.fw, n, st['paths']))] = v
         return out
 
 
